@@ -492,6 +492,7 @@ void* __wrap_realloc(void* p, size_t size) {
 
 // ------------------------------------------------------------------------------------------------
 // scheduler
+static char* put_str(char* p, const char* s);
 static char* put_u64(char* p, uint64_t v);
 static char* put_i64(char* p, int64_t v);
 #define MAXT 32
@@ -501,6 +502,7 @@ typedef struct {
   int state;
   int in_lib;
   int in_window;
+  int armed;
   uint64_t prio;
   uint64_t local;  // yield points executed by this task
   uint64_t blocked_progress;
@@ -645,6 +647,12 @@ static void do_switch(int self, int next) {
 
 static void yield_point(int kind, uint64_t site, int window) {
   const int self = t_self;
+  // a lazy-init window opens *after* the zero load has executed: the sancov callback of that load runs before the load
+  // itself, so the switch that lets another task into the same window belongs to the next yield point of this task
+  if (T[self].armed) {
+    window = 1;
+    T[self].armed = 0;
+  }
   g_st.steps++;
   T[self].local++;
   trace_mix(((uint64_t)self << 8) | (uint64_t)kind, site);
@@ -876,9 +884,10 @@ static inline void mem_point(const void* addr, int size, int is_store) {
   if (a < &__data_start || a >= &_end) return;  // heap, stack, TLS, read-only data: not a scheduling point
   g_st.static_accesses++;
   int window = 0;
-  if (!is_store && size == 8) {
-    uint64_t v;
-    memcpy(&v, addr, 8);
+  if (!is_store && (size == 8 || size == 4)) {
+    // a zero flag / pointer read from static data: the "if (!initialised)" window of lazily built state
+    uint64_t v = 0;
+    memcpy(&v, addr, (size_t)size);
     if (v == 0) {
       window = 1;
       g_st.window_hits++;
@@ -894,7 +903,8 @@ static inline void mem_point(const void* addr, int size, int is_store) {
     T[t_self].in_window = 0;
   }
   uint64_t site = (uint64_t)__builtin_return_address(0) - g_image_base;
-  yield_point(is_store ? K_SSTORE : K_SLOAD, site, window);
+  yield_point(is_store ? K_SSTORE : K_SLOAD, site, 0);
+  if (window) T[t_self].armed = 1;
 }
 void __sanitizer_cov_load1(uint8_t* a) { mem_point(a, 1, 0); }
 void __sanitizer_cov_load2(uint16_t* a) { mem_point(a, 2, 0); }
@@ -952,6 +962,58 @@ int __wrap_pthread_rwlock_wrlock(pthread_rwlock_t* m) {
     blocked_yield();
   }
 }
+// ---- C11 atomics: clang lowers them to __tsan_atomic* calls, which carry no coverage callback of their own and are often
+// compiled without a basic-block edge between a load and the following read-modify-write. Every atomic operation is
+// therefore a yield point *after* it has executed: the window of an almost-right lock-free protocol (load, decide, RMW)
+// is reachable by the scheduler.
+enum { K_ATOMIC = 8 };
+static inline void atomic_point(void) {
+  if (!g_active || t_self < 0) return;
+  yield_point(K_ATOMIC, (uint64_t)__builtin_return_address(0) - g_image_base, 1);
+}
+#define SIM_ATOMIC_WRAP(BITS, T)                                                                                      \
+  T __real___tsan_atomic##BITS##_load(const volatile T* a, int mo);                                                    \
+  T __wrap___tsan_atomic##BITS##_load(const volatile T* a, int mo) {                                                   \
+    T r = __real___tsan_atomic##BITS##_load(a, mo);                                                                    \
+    atomic_point();                                                                                                    \
+    return r;                                                                                                          \
+  }                                                                                                                    \
+  void __real___tsan_atomic##BITS##_store(volatile T* a, T v, int mo);                                                 \
+  void __wrap___tsan_atomic##BITS##_store(volatile T* a, T v, int mo) {                                                \
+    __real___tsan_atomic##BITS##_store(a, v, mo);                                                                      \
+    atomic_point();                                                                                                    \
+  }                                                                                                                    \
+  SIM_ATOMIC_RMW(BITS, T, exchange)                                                                                    \
+  SIM_ATOMIC_RMW(BITS, T, fetch_add)                                                                                   \
+  SIM_ATOMIC_RMW(BITS, T, fetch_sub)                                                                                   \
+  SIM_ATOMIC_RMW(BITS, T, fetch_and)                                                                                   \
+  SIM_ATOMIC_RMW(BITS, T, fetch_or)                                                                                    \
+  SIM_ATOMIC_RMW(BITS, T, fetch_xor)                                                                                   \
+  SIM_ATOMIC_RMW(BITS, T, fetch_nand)                                                                                  \
+  int __real___tsan_atomic##BITS##_compare_exchange_strong(volatile T* a, T* c, T v, int mo, int fmo);                 \
+  int __wrap___tsan_atomic##BITS##_compare_exchange_strong(volatile T* a, T* c, T v, int mo, int fmo) {                \
+    int r = __real___tsan_atomic##BITS##_compare_exchange_strong(a, c, v, mo, fmo);                                    \
+    atomic_point();                                                                                                    \
+    return r;                                                                                                          \
+  }                                                                                                                    \
+  int __real___tsan_atomic##BITS##_compare_exchange_weak(volatile T* a, T* c, T v, int mo, int fmo);                   \
+  int __wrap___tsan_atomic##BITS##_compare_exchange_weak(volatile T* a, T* c, T v, int mo, int fmo) {                  \
+    int r = __real___tsan_atomic##BITS##_compare_exchange_weak(a, c, v, mo, fmo);                                      \
+    atomic_point();                                                                                                    \
+    return r;                                                                                                          \
+  }
+#define SIM_ATOMIC_RMW(BITS, T, OP)                                  \
+  T __real___tsan_atomic##BITS##_##OP(volatile T* a, T v, int mo);   \
+  T __wrap___tsan_atomic##BITS##_##OP(volatile T* a, T v, int mo) {  \
+    T r = __real___tsan_atomic##BITS##_##OP(a, v, mo);               \
+    atomic_point();                                                  \
+    return r;                                                        \
+  }
+SIM_ATOMIC_WRAP(8, uint8_t)
+SIM_ATOMIC_WRAP(16, uint16_t)
+SIM_ATOMIC_WRAP(32, uint32_t)
+SIM_ATOMIC_WRAP(64, uint64_t)
+
 // pthread_once: the first caller runs the initialiser through the real primitive; callers arriving while it is
 // in progress yield until it completed, then go through the real primitive (which gives TSan the acquire edge)
 #define MAXONCE 64
@@ -1006,6 +1068,27 @@ __attribute__((used, visibility("default"))) void __tsan_on_report(void* rep) {
     r->mop[i].addr = (uint64_t)addr;
   }
   g_tsan_nrep++;
+  // streamed at once (a run can be slowed to a crawl by the race it exhibits: every racy access costs a stack
+  // reconstruction inside the sanitizer), and the run ends after a handful of reports
+  {
+    char buf[200];
+    char* p = buf;
+    p = put_str(p, "TSANREP pc0=");
+    p = put_u64(p, r->mop[0].pc[0]);
+    p = put_str(p, " pc1=");
+    p = put_u64(p, r->mop[1].pc[0]);
+    p = put_str(p, " w0=");
+    p = put_u64(p, (uint64_t)r->mop[0].write);
+    p = put_str(p, " w1=");
+    p = put_u64(p, (uint64_t)r->mop[1].write);
+    *p++ = '\n';
+    if (sim_fctx.result_fd > 0) (void)!write(sim_fctx.result_fd, buf, (size_t)(p - buf));
+    if (g_tsan_nrep >= 4) {
+      const char m[] = "RACE-LIMIT\n";
+      if (sim_fctx.result_fd > 0) (void)!write(sim_fctx.result_fd, m, sizeof(m) - 1);
+      _exit(81);
+    }
+  }
 }
 int sim_tsan_reports(const sim_tsan_report** out) {
   *out = g_tsan_rep;
@@ -1122,6 +1205,15 @@ static void fault_handler(int sig, siginfo_t* si, void* uc_) {
   _exit(78);
 }
 
+// wall-clock budget exhausted: leave what ThreadSanitizer already found before dying (a run slowed down to a crawl by
+// the very race it exhibits would otherwise only be seen as a hang)
+static void alarm_handler(int sig) {
+  (void)sig;
+  const char m[] = "TIMEOUT\n";
+  if (sim_fctx.result_fd > 0) (void)!write(sim_fctx.result_fd, m, sizeof(m) - 1);
+  _exit(80);
+}
+
 void sim_install_fault_handlers(void) {
   sim_image_base();
   static char altstack[1 << 16];
@@ -1139,6 +1231,13 @@ void sim_install_fault_handlers(void) {
   sigaction(SIGSEGV, &sa, NULL);
   sigaction(SIGBUS, &sa, NULL);
 #endif
+  {
+    struct sigaction al;
+    memset(&al, 0, sizeof(al));
+    al.sa_handler = alarm_handler;
+    sigemptyset(&al.sa_mask);
+    sigaction(SIGALRM, &al, NULL);
+  }
   sigaction(SIGILL, &sa, NULL);
   sigaction(SIGFPE, &sa, NULL);
   sigaction(SIGABRT, &sa, NULL);
